@@ -42,10 +42,10 @@ struct VbS2 { char c; long l; short s; void* p; long long ll; char tail[3]; };
 rlbox_load_structs_from_library(vb);
 
 // ---------------------------------------------------------------- C06 matrix
+#if defined(VB_PART_CONV) || defined(VB_PART_ALL)
 template<class To, class From> void vb_conv1() { To t{}; From f{}; detail::convert_type_fundamental(t, f); }
 template<class To, class... Fs> void vb_convrow() { (vb_conv1<To, Fs>(), ...); }
 template<class... Ts> void vb_convall() { (vb_convrow<Ts, Ts...>(), ...); }
-#if defined(VB_PART_CONV) || defined(VB_PART_ALL)
 void vb_conv_matrix()
 {
   vb_convall<bool, char, signed char, unsigned char, short, unsigned short, int, unsigned, long, unsigned long,
@@ -263,7 +263,6 @@ void vb_invoke(rlbox_sandbox<SBX>& s)
 #else
   s.create_sandbox(); s.destroy_sandbox();
 #endif
-  { int vb_cnt = 0; auto vb_g = rlbox::detail::make_scope_exit([&] { vb_cnt++; }); auto vb_g2 = std::move(vb_g); vb_g2.release(); }
   rlbox_sandbox<SBX> vb_local_sandbox; (void)vb_local_sandbox.sandbox_storage;
   void* st = s.get_transition_state(); s.set_transition_state(st); (void)s.get_total_memory(); (void)s.get_memory_location(); (void)s.get_sandbox_impl();
   (void)s.is_pointer_in_app_memory(nullptr); (void)s.is_pointer_in_sandbox_memory(nullptr);
@@ -320,3 +319,13 @@ void vb_all(rlbox_sandbox<SBX>& s)
   vb_invoke(s);
 #endif
 }
+
+
+// ---------------------------------------------------------------- scope guard (C19): every member of detail::scope_exit
+#if defined(VB_PART_SCOPE) || defined(VB_PART_ALL)
+void vb_scope_guard()
+{
+  int vb_cnt = 0; auto vb_g = rlbox::detail::make_scope_exit([&] { vb_cnt++; }); auto vb_g2 = std::move(vb_g); vb_g2.release();
+  auto vb_g3 = rlbox::detail::make_scope_exit([&] { vb_cnt--; }); (void)vb_g3;
+}
+#endif
